@@ -48,6 +48,10 @@ PowChain(f, x, bits, steps, i, t) == \* returns <<ok, t>>; i indexes steps
                IN IF ~okMl THEN <<FALSE, t>> ELSE PowChain(f, x, Tail(bits), steps, i + 2, ml.z)
 
 Bit(q) == Norm(q) = <<>> \/ Norm(q) = One
+BigLe(a, b) == BigLt(a, b) \/ BigEq(a, b)
+\* value of a little-endian binary digit sequence
+RECURSIVE BigSumDigits(_)
+BigSumDigits(ds) == IF ds = <<>> THEN <<>> ELSE BigAdd(FromInt(Head(ds)), BigMul(<<2>>, BigSumDigits(Tail(ds))))
 
 EventOK(e) ==
   LET f == e.f  p == Prime(f) IN
@@ -63,6 +67,21 @@ EventOK(e) ==
     [] e.ev = "pow" -> LET r == PowChain(f, e.x, e.bits, e.steps, 1, One) IN
                        Reduced(f, e.x) /\ r[1] /\ BigEq(r[2], e.z)
     [] e.ev = "from_int" -> Reduced(f, e.z) /\ DivIdent(f, e.n, e.q, e.z)     \* F::from(n) read back
+    \* integers <-> bit vectors: a length b is valid iff 2^b - 1 is representable, i.e. 2^b <= p
+    [] e.ev = "bitvec_enc" ->     \* encode_as_bitvector(x, b): refused for invalid b or x >= 2^b, else the b binary digits of x
+         LET valid == BigLe(Pow2Big(e.bits), p)
+             fits == BigLt(e.x, Pow2Big(e.bits)) IN
+         /\ ~e.panic
+         /\ e.ok = (valid /\ fits)
+         /\ e.ok => /\ Len(e.digits) = e.bits
+                     /\ BigEq(e.x, BigSumDigits(e.digits))
+                     /\ \A i \in 1..Len(e.digits) : e.digits[i] \in {0, 1}
+    [] e.ev = "bitvec_dec" ->     \* decode_bitvector of the all-ones (pat 0) / alternating (pat 1) vector of length b
+         LET valid == BigLe(Pow2Big(e.bits), p)
+             want == BigSumDigits([i \in 1..e.bits |-> IF e.pat = 0 \/ i % 2 = 1 THEN 1 ELSE 0]) IN
+         /\ ~e.panic
+         /\ e.ok = valid
+         /\ e.ok => BigEq(e.z, want)              \* below 2^b <= p: no reduction happens
     [] e.ev = "encode" -> Len(e.bytes) = EncSize(f) /\ BigEq(BytesLE(e.bytes), e.x) /\ e.len = EncSize(f)
     [] e.ev = "decode" ->     \* exact-size decode: accepted iff canonical
          LET v == BytesLE(e.bytes) IN
